@@ -8,7 +8,12 @@ spec/C14/BimgMC.tla    : MC + GEN. The tables are extracted from the device data
                          per distinct table, subsets of optional segments x payload length menu x requested init offsets, checks
                          the layout lemmas (NoOverlap, StartsWhereTold, InitSnap, CursorMonotone, TotalIsEnd) on every state of
                          every walk and emits each case with its expected placement.
-spec/C14/BimgTrace.tla : TV. One trace per executed case; every logged number is recomputed by the spec.
+spec/C14/BimgHist.tla  : R-spec, history layer. ONE object that lives on: every public mutator (init offset setter, load_config / clear of
+                         a segment, export, the parse of its own export taking its place) is an action on the CURRENT case; after any
+                         history the export must be the image Bimg prescribes for the current case (= the image of a fresh object).
+spec/C14/BimgHistGen.tla : MC + GEN of histories (the history is part of the state): exhaustive lanes (all sequences of 2 / 3 changes from
+                         every requested start, also after a parse) and a -simulate lane (longer, changes without exports in between).
+spec/C14/BimgTrace.tla : TV. One trace per executed case or history; every logged number is recomputed by the spec.
 
 Python only EXECUTES: it builds real payloads (MBI / HAB / AHAB containers through the public builders, SB2.1 / SB3.1 golden
 files, FCB / XMCD through their classes, marker-filled key blobs ...), drives the real BootableImage through
@@ -346,6 +351,23 @@ class Exec:
     def __init__(self, tables, mats):
         self.tables, self.mats = tables, mats
 
+    def one_payload(self, triple, i, n, r, use_yaml):
+        """-> (configuration value, supplied bytes) of a payload of menu length n for segment i of the triple's table"""
+        fam, rev, mt, tb = triple
+        t = self.tables[tb]
+        s = t["segs"][i]
+        name = s["name"]
+        if name in VERSION:
+            v = r.randrange(1, 0xFFFF)
+            return v, version_bytes(name, v)
+        if s["raw"]:
+            d = raw_payload(n, fam, name)
+            return self.mats.put(d, "raw", f"{name}-{n}-{sha([fam])}.bin"), d
+        menu = self.mats.get(fam, rev, mt, t, i)
+        k = s["lens"].index(n) if n in s["lens"] else 0
+        m = menu[min(k, len(menu) - 1)]
+        return (m["yaml"] if (use_yaml and "yaml" in m) else m["bin"]), open(m["bin"], "rb").read()
+
     def payloads(self, case, triple, r, use_yaml):
         """-> (config dict, {segment index: supplied bytes}, actual payload lengths)"""
         fam, rev, mt, tb = triple
@@ -356,28 +378,91 @@ class Exec:
             if not case["present"][i]:
                 plen.append(0)
                 continue
-            name = s["name"]
-            if name in VERSION:
-                v = r.randrange(1, 0xFFFF)
-                cfg[s["cfg"]] = v
-                data[i] = version_bytes(name, v)
-            elif s["raw"]:
-                data[i] = raw_payload(case["plen"][i], fam, name)
-                cfg[s["cfg"]] = self.mats.put(data[i], "raw", f"{name}-{case['plen'][i]}-{sha([fam])}.bin")
-            else:
-                menu = self.mats.get(fam, rev, mt, t, i)
-                k = s["lens"].index(case["plen"][i]) if case["plen"][i] in s["lens"] else 0
-                m = menu[min(k, len(menu) - 1)]
-                data[i] = open(m["bin"], "rb").read()
-                cfg[s["cfg"]] = m["yaml"] if (use_yaml and "yaml" in m) else m["bin"]
+            cfg[s["cfg"]], data[i] = self.one_payload(triple, i, case["plen"][i], r, use_yaml)
             plen.append(len(data[i]))
         return cfg, data, plen
+
+    @staticmethod
+    def observe(bimg, t, data, ev, handles=None):
+        """Export the object and read the bytes with a dumb scanner: where is every payload the image claims to contain, what lies
+        between them.  Appends Gap / Seg / End events; -> (image, found segment indexes) or None when the trace ends with a Crash event."""
+        try:
+            image = bimg.export()
+            api_total = len(bimg)
+            claimed = {seg.NAME.label: seg for seg in bimg.segments}
+            api = {n: (bimg.get_segment_offset(seg), len(seg)) for n, seg in claimed.items()}
+        except Exception as e:  # noqa: BLE001
+            ev.append({"ev": "Crash", "of": "Export", "exc": type(e).__name__, "msg": str(e)[:160]})
+            return None
+        if handles is not None:
+            handles.update(claimed)         # references to segment objects are taken from the public `segments` list only
+        pat = bytes([t["pat"]])
+        cur = 0
+        found = []
+        for i, s in enumerate(t["segs"]):
+            if i not in data or s["name"] not in claimed:
+                continue
+            d = data[i]
+            at = image.find(d, cur)
+            ok = at >= 0
+            if not ok:
+                at = image.find(d[:16], cur)
+            if at < 0:
+                ev.append({"ev": "Seg", "i": i + 1, "at": -1, "len": len(d), "ok": False, "apiOff": api[s["name"]][0], "apiLen": api[s["name"]][1]})
+                continue
+            if at > cur:
+                ev.append({"ev": "Gap", "from": cur, "to": at, "pat": image[cur:at] == pat * (at - cur)})
+            ev.append({"ev": "Seg", "i": i + 1, "at": at, "len": len(d), "ok": ok, "apiOff": api[s["name"]][0], "apiLen": api[s["name"]][1]})
+            cur = at + len(d)
+            found.append(i)
+        if cur < len(image):
+            ev.append({"ev": "Gap", "from": cur, "to": len(image), "pat": image[cur:] == pat * (len(image) - cur)})
+        # a block the object holds although it was not supplied; one that consists of fill bytes only is indistinguishable from an absent
+        # one (the parser returns the image version word of an image without one as 4 fill bytes) and is read as gap
+        extra = sorted(n for n, seg in claimed.items() if n not in [t["segs"][i]["name"] for i in data] and seg.export().strip(pat) != b"")
+        if extra:
+            ev.append({"ev": "Crash", "of": "Export", "exc": "UnsuppliedSegmentPresent", "msg": ",".join(extra)})
+            return None
+        ev.append({"ev": "End", "total": len(image), "apiLen": api_total})
+        return image, found
+
+    @staticmethod
+    def parse_back(image, found, data, t, triple, ev):
+        """Parse the exported bytes back.  Appends Parse / PSeg / Done events; -> (parsed object, {segment index: returned bytes}) or None."""
+        from spsdk.exceptions import SPSDKError
+        from spsdk.image.bootable_image.bimg import BootableImage
+        from spsdk.image.mem_type import MemoryType
+
+        fam, rev, mt, _ = triple
+        pat = bytes([t["pat"]])
+        try:
+            parsed = BootableImage.parse(image, family=fam, mem_type=MemoryType.from_label(mt), revision=rev)
+        except SPSDKError as e:
+            ev.append({"ev": "Parse", "ok": False, "init": -1, "msg": str(e)[:160]})
+            return None
+        except Exception as e:  # noqa: BLE001
+            ev.append({"ev": "Crash", "of": "Parse", "exc": type(e).__name__, "msg": str(e)[:160]})
+            return None
+        ev.append({"ev": "Parse", "ok": True, "init": parsed.init_offset})
+        back = {seg.NAME.label: seg for seg in parsed.segments}
+        got = {}
+        for i in found:
+            s = t["segs"][i]
+            seg = back.get(s["name"])
+            if seg is None:
+                ev.append({"ev": "PSeg", "i": i + 1, "present": False, "plen": 0, "prefixOk": False, "tailPat": False})
+                continue
+            got[i] = seg.export()
+            d = data[i]
+            ev.append({"ev": "PSeg", "i": i + 1, "present": True, "plen": len(got[i]), "prefixOk": got[i][:len(d)] == d,
+                       "tailPat": got[i][len(d):] == pat * max(0, len(got[i]) - len(d))})
+        ev.append({"ev": "Done"})
+        return parsed, got
 
     def run(self, cid, case, triple, mode):
         from spsdk.exceptions import SPSDKError
         from spsdk.image.bootable_image.bimg import BootableImage
         from spsdk.image.bootable_image.segments import BootableImageSegment
-        from spsdk.image.mem_type import MemoryType
 
         fam, rev, mt, tb = triple
         t = self.tables[tb]
@@ -412,65 +497,113 @@ class Exec:
             return tr
         eff = bimg.init_offset
         ev.append({"ev": "Build", "refused": False, "eff": eff if isinstance(eff, int) else -999})
-        try:
-            image = bimg.export()
-            api_total = len(bimg)
-            claimed = {seg.NAME.label: seg for seg in bimg.segments}
-            api = {n: (bimg.get_segment_offset(seg), len(seg)) for n, seg in claimed.items()}
-        except Exception as e:  # noqa: BLE001
-            ev.append({"ev": "Crash", "of": "Export", "exc": type(e).__name__, "msg": str(e)[:160]})
-            return tr
+        res = self.observe(bimg, t, data, ev)           # ---- read the exported bytes
+        if res is not None:
+            self.parse_back(res[0], res[1], data, t, triple, ev)     # ---- parse the exported bytes back
+        return tr
 
-        # ---- read the exported bytes: where is every payload the image claims to contain, what lies between them
-        pat = bytes([t["pat"]])
-        cur = 0
-        found = []
-        for i, s in enumerate(t["segs"]):
-            if i not in data or s["name"] not in claimed:
-                continue
-            d = data[i]
-            at = image.find(d, cur)
-            ok = at >= 0
-            if not ok:
-                at = image.find(d[:16], cur)
-            if at < 0:
-                ev.append({"ev": "Seg", "i": i + 1, "at": -1, "len": len(d), "ok": False, "apiOff": api[s["name"]][0], "apiLen": api[s["name"]][1]})
-                continue
-            if at > cur:
-                ev.append({"ev": "Gap", "from": cur, "to": at, "pat": image[cur:at] == pat * (at - cur)})
-            ev.append({"ev": "Seg", "i": i + 1, "at": at, "len": len(d), "ok": ok, "apiOff": api[s["name"]][0], "apiLen": api[s["name"]][1]})
-            cur = at + len(d)
-            found.append(i)
-        if cur < len(image):
-            ev.append({"ev": "Gap", "from": cur, "to": len(image), "pat": image[cur:] == pat * (len(image) - cur)})
-        extra = sorted(n for n in claimed if n not in [t["segs"][i]["name"] for i in data])
-        if extra:
-            ev.append({"ev": "Crash", "of": "Export", "exc": "UnsuppliedSegmentPresent", "msg": ",".join(extra)})
-            return tr
-        ev.append({"ev": "End", "total": len(image), "apiLen": api_total})
+    def run_hist(self, hid, h, triple):
+        """One history on ONE live object: create it from the configuration of the initial case, then apply the changes TLC chose
+        through the public API (references to segment objects only from the public `segments` list), export / parse where TLC put them."""
+        from spsdk.exceptions import SPSDKError
+        from spsdk.image.bootable_image.bimg import BootableImage
+        from spsdk.image.bootable_image.segments import BootableImageSegment
 
-        # ---- parse the exported bytes back
+        fam, rev, mt, tb = triple
+        t = self.tables[tb]
+        r = rng(PROP, "hist", hid)
+        use_yaml = r.random() < 0.25
+        case = {"present": h["present"], "plen": h["plen"], "req": h["req"]}
+        cfg, data, plen = self.payloads(case, triple, r, use_yaml)
+        steps = [{k: s[k] for k in s if k not in ("place", "total")} for s in h["hist"] if s["a"] != "Build"]
+        tr = {"id": hid, "tb": tb + 1, "present": case["present"], "plen": plen, "req": case["req"], "ev": [],
+              "info": {"family": fam, "revision": rev, "mem_type": mt, "mode": "history", "lane": h.get("lane", ""), "yaml": use_yaml, "sig": t["sig"],
+                       "config": {k: (os.path.basename(v) if isinstance(v, str) and os.sep in v else v) for k, v in cfg.items()},
+                       "case": case, "hist": steps}}
+        ev = tr["ev"]
         try:
-            parsed = BootableImage.parse(image, family=fam, mem_type=MemoryType.from_label(mt), revision=rev)
+            cfg["init_offset"] = case["req"]
+            bimg = BootableImage.load_from_config(cfg, search_paths=[self.mats.dir])
         except SPSDKError as e:
-            ev.append({"ev": "Parse", "ok": False, "init": -1, "msg": str(e)[:160]})
+            ev.append({"ev": "Build", "refused": True, "eff": 0, "msg": str(e)[:160]})
             return tr
         except Exception as e:  # noqa: BLE001
-            ev.append({"ev": "Crash", "of": "Parse", "exc": type(e).__name__, "msg": str(e)[:160]})
+            ev.append({"ev": "Crash", "of": "Build", "exc": type(e).__name__, "msg": str(e)[:160]})
             return tr
-        ev.append({"ev": "Parse", "ok": True, "init": parsed.init_offset})
-        back = {seg.NAME.label: seg for seg in parsed.segments}
-        for i in found:
-            s = t["segs"][i]
-            seg = back.get(s["name"])
-            if seg is None:
-                ev.append({"ev": "PSeg", "i": i + 1, "present": False, "plen": 0, "prefixOk": False, "tailPat": False})
-                continue
-            got = seg.export()
-            d = data[i]
-            ev.append({"ev": "PSeg", "i": i + 1, "present": True, "plen": len(got), "prefixOk": got[:len(d)] == d,
-                       "tailPat": got[len(d):] == pat * max(0, len(got) - len(d))})
-        ev.append({"ev": "Done"})
+        eff = bimg.init_offset
+        ev.append({"ev": "Build", "refused": False, "eff": eff if isinstance(eff, int) else -999})
+        handles = {}
+        res = self.observe(bimg, t, data, ev, handles)
+        if res is None:
+            return tr
+        parsed = None
+        # where the content of a segment came from since its last clear(): "bin" (file with the bytes), "int", or - the segment holds the
+        # container as an object - "yaml" (configuration file of the container) / "parsed"
+        src = {i: ("int" if isinstance(cfg[t["segs"][i]["cfg"]], int) else "yaml" if str(cfg[t["segs"][i]["cfg"]]).endswith(".yaml") else "bin") for i in data}
+        for s in steps:
+            a = s["a"]
+            try:
+                if a == "SetInit":
+                    q = s["req"]
+                    seg_at = next((x["name"] for x in t["segs"] if x["off"] == q), None)
+                    via = r.choice(("setter", "set_init_offset", "segment") if seg_at else ("setter", "set_init_offset"))
+                    try:
+                        if via == "setter":
+                            bimg.init_offset = q
+                        elif via == "set_init_offset":
+                            bimg.set_init_offset(q)
+                        else:
+                            bimg.set_init_offset(BootableImageSegment.from_label(seg_at))
+                    except SPSDKError as e:
+                        ev.append({"ev": "SetInit", "req": q, "eff": -1, "refused": True, "via": via, "msg": str(e)[:160]})
+                        return tr
+                    eff = bimg.init_offset
+                    ev.append({"ev": "SetInit", "req": q, "eff": eff if isinstance(eff, int) else -999, "refused": False, "via": via})
+                elif a in ("SetSeg", "ClearSeg"):
+                    i = s["i"] - 1
+                    seg = handles.get(t["segs"][i]["name"])
+                    if seg is None:     # cannot happen when the object showed what the R-spec says (the trace is rejected earlier then)
+                        ev.append({"ev": "Crash", "of": a, "exc": "NoReference", "msg": t["segs"][i]["name"]})
+                        return tr
+                    if a == "ClearSeg":
+                        seg.clear()
+                        data.pop(i, None)
+                        src.pop(i, None)
+                        ev.append({"ev": "ClearSeg", "i": i + 1})
+                    else:
+                        # a container that is held as an object (configured from YAML, returned by parse) and replaced by a binary file keeps
+                        # exporting the old object (known finding): mostly stay on the YAML path there, so that the rest of the history is reached
+                        was = src.get(i, "none")
+                        val, d = self.one_payload(triple, i, s["len"], r, r.random() < (0.75 if was in ("yaml", "parsed") else 0.25))
+                        seg.load_config({t["segs"][i]["cfg"]: val}, search_paths=[self.mats.dir])
+                        data[i] = d
+                        now = "int" if isinstance(val, int) else "yaml" if val.endswith(".yaml") else "bin"
+                        src[i] = was if (now == "bin" and was in ("yaml", "parsed")) else now     # "held as an object" lasts until clear() / a new YAML
+                        ev.append({"ev": "SetSeg", "i": i + 1, "len": len(d), "was": was, "src": now})
+                elif a == "Export":
+                    eff = bimg.init_offset
+                    ev.append({"ev": "Export", "eff": eff if isinstance(eff, int) else -999})
+                    res = self.observe(bimg, t, data, ev, handles)
+                    if res is None:
+                        return tr
+                elif a == "Parse":
+                    parsed = self.parse_back(res[0], res[1], data, t, triple, ev)
+                    if parsed is None:
+                        return tr
+                elif a == "Reparse":
+                    bimg, got = parsed
+                    data = dict(got)
+                    src = dict.fromkeys(got, "parsed")
+                    handles = {x.NAME.label: x for x in bimg.segments}
+                    eff = bimg.init_offset
+                    ev.append({"ev": "Reparse", "eff": eff if isinstance(eff, int) else -999})
+                else:
+                    raise Machinery(f"history step {a!r} is not known to the executor")
+            except Machinery:
+                raise
+            except Exception as e:  # noqa: BLE001 - a crash of a mutator is an observation: no action of the spec matches it
+                ev.append({"ev": "Crash", "of": a, "exc": type(e).__name__, "msg": str(e)[:160]})
+                return tr
         return tr
 
 
@@ -480,47 +613,80 @@ def strip(t):
 
 # ------------------------------------------------------------------ verdict plumbing
 def key_of(t, tables, matched):
-    """Finding key derived from the witness: table signature, failing clause, input class."""
+    """Finding key derived from the witness: table signature, failing clause, input class (for a history: the changes since the last good export)."""
     tab = tables[t["tb"] - 1]
     sig = tab["sig"]
-    ev = t["ev"][min(matched, len(t["ev"]) - 1)]
+    at = min(matched, len(t["ev"]) - 1)
+    ev = t["ev"][at]
     k = ev["ev"]
     names = [s["name"] for s in tab["segs"]]
+    before = t["ev"][:at]
 
-    def start():
-        b = next((e for e in t["ev"] if e["ev"] == "Build"), None)
-        eff = b["eff"] if b else 0
+    def start_name(eff):
         if eff == 0:
             return "full"
         return next((s["name"] for s in tab["segs"] if s["off"] == eff), f"{eff:#x}")
 
+    # the start the image has (as the object reported it last), the walk of the last export, the last parse
+    effs = [e["eff"] for e in before if e["ev"] in ("Build", "SetInit", "Export", "Reparse") and "eff" in e]
+    last_export = max([n for n, e in enumerate(before) if e["ev"] in ("Build", "Export")], default=0)
+    walk = [e for e in before[last_export:] if e["ev"] == "Seg"] if before else []
+
+    def start():
+        return start_name(effs[-1] if effs else 0)
+
+    # ---- a history: the classes of the changes made to the live object since its last accepted export
+    muts, prev_eff = [], None
+    for n, e in enumerate(t["ev"][:at + (1 if k in ("SetInit", "SetSeg", "ClearSeg", "Reparse") else 0)]):
+        if e["ev"] in ("Build", "Export"):
+            prev_eff = e.get("eff", 0)
+            if any(x["ev"] == "End" for x in t["ev"][n:at]):       # this export was read to its end: the changes before it are not the cause
+                muts = []
+        elif e["ev"] == "SetInit":
+            muts.append(f"SetInit:{start_name(prev_eff or 0)}->{start_name(e['eff']) if not e.get('refused') else 'refused'}")
+            prev_eff = e["eff"]
+        elif e["ev"] == "SetSeg":
+            muts.append(f"SetSeg:{names[e['i'] - 1]}({'new' if e.get('was', 'none') == 'none' else 'replace'}:{e.get('was', 'none')}->{e.get('src', '?')})")
+        elif e["ev"] == "ClearSeg":
+            muts.append(f"ClearSeg:{names[e['i'] - 1]}")
+        elif e["ev"] == "Reparse":
+            muts.append("Reparse")
+    mut = "+".join(muts)
+
+    def hist(clause):
+        return f"C14/{sig}/history/{mut}/{clause}" if mut else f"C14/{sig}/{clause}"
+
     if k == "Crash":
         if ev["of"] == "Parse":
             return f"C14/{sig}/parse/start={start()}/crash:{ev['exc']}"
-        return f"C14/{sig}/{ev['of'].lower()}/crash:{ev['exc']}"
+        return hist(f"{ev['of'].lower()}/crash:{ev['exc']}")
     if k == "Build":
         if ev["refused"]:
             return f"C14/{sig}/build/refused"
         if ev["eff"] < 0:
             return f"C14/{sig}/build/init-offset-negative"
         return f"C14/{sig}/build/init-snap"
+    if k == "SetInit":
+        return hist("refused" if ev.get("refused") else "init-snap")
+    if k in ("SetSeg", "ClearSeg", "Reparse", "Export"):
+        return hist(k.lower())
     if k == "Gap":
-        return f"C14/{sig}/gap/" + ("range" if ev["pat"] else "not-pattern")
+        return hist("gap/" + ("range" if ev["pat"] else "not-pattern"))
     if k == "Seg":
         cls = "bytes" if not ev["ok"] else "api-offset" if ev["apiOff"] != ev["at"] else "api-length" if ev["apiLen"] != ev["len"] else "offset"
-        return f"C14/{sig}/{names[ev['i'] - 1]}/{cls}"
+        return hist(f"{names[ev['i'] - 1]}/{cls}")
     if k == "End":
-        return f"C14/{sig}/total-length"
-    inc = "+".join(names[e["i"] - 1] + (">size" if 0 < tab["segs"][e["i"] - 1]["size"] < e["len"] else "") for e in t["ev"] if e["ev"] == "Seg")
+        return hist("total-length")
+    # ---- parse of an image the reader accepted: the same classes for cases and histories
+    inc = "+".join(names[e["i"] - 1] + (">size" if 0 < tab["segs"][e["i"] - 1]["size"] < e["len"] else "") for e in walk)
     if k == "Parse":
         why = "refused"
         if not t.get("info", {}).get("selfparse", True):
             why = "refused/container-parser-refuses-own-export"
         return f"C14/{sig}/parse/start={start()}/{why}/inc={inc}"
     if k == "PSeg":
-        b = next((e for e in t["ev"] if e["ev"] == "Build"), None)
-        p = next((e for e in t["ev"] if e["ev"] == "Parse"), None)
-        if b and p and p["init"] != b["eff"]:
+        p = next((e for e in reversed(before) if e["ev"] == "Parse"), None)
+        if effs and p and p["init"] != effs[-1]:
             return f"C14/{sig}/parse/start={start()}/init-misdetected"       # the parser settled on another start than the image has
         cls = "missing" if not ev["present"] else "bytes" if not ev["prefixOk"] else "tail" if not ev["tailPat"] else "short"
         return f"C14/{sig}/parse/start={start()}/{names[ev['i'] - 1]}/{cls}"
@@ -536,9 +702,11 @@ def validate(v, tables, table_file, traces):
         t = by_id[tid]
         ev = t["ev"][min(matched, len(t["ev"]) - 1)]
         info = t.get("info", {})
+        done = [e for e in t["ev"][:matched + 1] if e["ev"] in ("SetInit", "SetSeg", "ClearSeg", "Reparse")]
+        story = (" after " + " ; ".join(f"{e['ev']}({', '.join(f'{k}={e[k]}' for k in ('req', 'eff', 'i', 'len') if k in e)})" for e in done)) if done else ""
         v.violation(key_of(t, tables, matched),
                     f"{info.get('family')}/{info.get('revision')}/{info.get('mem_type')} [{info.get('mode')}] present={t['present']} plen={t['plen']} "
-                    f"req={t['req']:#x}: event #{matched + 1} ({evname}) is not the reader's next step: {json.dumps(ev)[:300]}",
+                    f"req={t['req']:#x}{story}: event #{matched + 1} ({evname}) is not the reader's next step: {json.dumps(ev)[:300]}",
                     {"trace": t, "table": tables[t["tb"] - 1], "failed_event": matched + 1})
     return rej
 
@@ -561,9 +729,130 @@ def synthetic_trace(case, tid):
     return {"id": tid, "tb": case["tb"], "present": case["present"], "plen": case["plen"], "req": case["req"], "ev": ev}
 
 
-def canary(cases, table_file):
+def synthetic_hist_trace(h, tables, tid):
+    """The trace a correct implementation produces for a GEN history, built from the placements TLC emitted with every export."""
+    segs = tables[h["tb"] - 1]["segs"]
+    ev = []
+    place, eff = None, 0
+
+    def walk(s):
+        cur = 0
+        for i, (off, n) in enumerate(s["place"]):
+            if off < 0:
+                continue
+            if off > cur:
+                ev.append({"ev": "Gap", "from": cur, "to": off, "pat": True})
+            ev.append({"ev": "Seg", "i": i + 1, "at": off, "len": n, "ok": True, "apiOff": off, "apiLen": n})
+            cur = off + n
+        ev.append({"ev": "End", "total": s["total"], "apiLen": s["total"]})
+
+    for s in h["hist"]:
+        a = s["a"]
+        if a == "Build":
+            ev.append({"ev": "Build", "refused": False, "eff": s["eff"]})
+        elif a == "Export":
+            ev.append({"ev": "Export", "eff": s["eff"]})
+        if a in ("Build", "Export"):
+            walk(s)
+            place, eff = s["place"], s["eff"]
+        elif a == "SetInit":
+            ev.append({"ev": "SetInit", "req": s["req"], "eff": s["eff"], "refused": False})
+        elif a == "SetSeg":
+            ev.append({"ev": "SetSeg", "i": s["i"], "len": s["len"]})
+        elif a == "ClearSeg":
+            ev.append({"ev": "ClearSeg", "i": s["i"]})
+        elif a == "Parse":
+            ev.append({"ev": "Parse", "ok": True, "init": eff})
+            for i, (off, n) in enumerate(place):
+                if off >= 0:    # what the generator assumes parse returns: the payload, a fixed-size block filled up to its size
+                    ev.append({"ev": "PSeg", "i": i + 1, "present": True, "plen": max(n, segs[i]["size"]), "prefixOk": True, "tailPat": True})
+            ev.append({"ev": "Done"})
+        elif a == "Reparse":
+            ev.append({"ev": "Reparse", "eff": s["eff"]})
+        else:
+            raise Machinery(f"history step {a!r} is not known")
+    return {"id": tid, "tb": h["tb"], "present": h["present"], "plen": h["plen"], "req": h["req"], "ev": ev}
+
+
+def hist_canaries(hists, tables):
+    """Spec-generated history traces (accepted) and corruptions of them that behave like an object which forgot / ignored a change."""
+    variants, want = [], set()
+
+    def steps(h):
+        return [s["a"] for s in h["hist"]]
+
+    def exports(h):
+        return [s for s in h["hist"] if s["a"] in ("Build", "Export")]
+
+    def pick(what, cond):
+        h = next((h for h in hists if cond(h)), None)
+        if h is None:
+            raise Machinery(f"no generated history for the canary '{what}'")
+        return h
+
+    def last_walk(ev):
+        k = max(n for n, e in enumerate(ev) if e["ev"] in ("Build", "Export"))
+        return k + 1, next(n for n in range(k + 1, len(ev)) if ev[n]["ev"] == "End") + 1
+
+    def prev_walk(ev):
+        ks = [n for n, e in enumerate(ev) if e["ev"] in ("Build", "Export")]
+        return ks[-2] + 1, next(n for n in range(ks[-2] + 1, len(ev)) if ev[n]["ev"] == "End") + 1
+
+    def variant(h, name, fn=None):
+        t = synthetic_hist_trace(h, tables, name)
+        if fn is not None:
+            fn(t["ev"])
+            want.add(name)
+        variants.append(t)
+
+    def stale(ev):        # the object did not react to the last change: the export is the one before the change
+        a, b = last_walk(ev)
+        c, d = prev_walk(ev)
+        ev[a:b] = [dict(e) for e in ev[c:d]]
+
+    def lost(ev):         # the segments in front of the former start stay left out (first segment of the last walk missing)
+        a, b = last_walk(ev)
+        ev.remove(next(e for e in ev[a:b] if e["ev"] == "Seg"))
+
+    def bump(kind, field, by):
+        def fn(ev):
+            e = [x for x in ev if x["ev"] == kind][-1]
+            e[field] = e[field] + by
+        return fn
+
+    # back to the full image: something that was left out is part of the image again
+    back = pick("start moved back to 0", lambda h: h["lane"] != "sim" and steps(h)[-2:] == ["SetInit", "Export"] and h["hist"][-2]["eff"] == 0
+                and len(exports(h)) >= 2 and exports(h)[-2]["eff"] > 0 and exports(h)[-2]["place"][0][0] < 0 <= exports(h)[-1]["place"][0][0])
+    variant(back, "hcanary-back-good")
+    variant(back, "hcanary-back-stale", stale)
+    variant(back, "hcanary-back-lost-segment", lost)
+    variant(back, "hcanary-back-eff", bump("SetInit", "eff", 1024))
+    variant(back, "hcanary-back-export-eff", bump("Export", "eff", 1))
+    up = pick("start moved up", lambda h: h["lane"] != "sim" and steps(h)[-2:] == ["SetInit", "Export"] and len(exports(h)) >= 2
+              and h["hist"][-2]["eff"] > exports(h)[-2]["eff"])
+    variant(up, "hcanary-up-good")
+    variant(up, "hcanary-up-stale", stale)
+    rep = pick("segment replaced", lambda h: h["lane"] != "sim" and steps(h)[-2:] == ["SetSeg", "Export"] and len(exports(h)) >= 2
+               and exports(h)[-2]["place"][h["hist"][-2]["i"] - 1][1] not in (0, h["hist"][-2]["len"]) and exports(h)[-2]["place"] != exports(h)[-1]["place"])
+    variant(rep, "hcanary-replace-good")
+    variant(rep, "hcanary-replace-stale", stale)
+    variant(rep, "hcanary-replace-len", bump("SetSeg", "len", 1))
+    clr = pick("segment cleared", lambda h: h["lane"] != "sim" and steps(h)[-2:] == ["ClearSeg", "Export"] and len(exports(h)) >= 2
+               and exports(h)[-2]["place"] != exports(h)[-1]["place"])
+    variant(clr, "hcanary-clear-good")
+    variant(clr, "hcanary-clear-stale", stale)
+    par = pick("parsed object", lambda h: h["lane"] == "parsed" and steps(h)[-2:] == ["SetInit", "Export"] and exports(h)[-2]["place"] != exports(h)[-1]["place"])
+    variant(par, "hcanary-parsed-good")
+    variant(par, "hcanary-parsed-stale", stale)
+    variant(par, "hcanary-parsed-eff", bump("Reparse", "eff", 512))
+    variant(par, "hcanary-parsed-short", lambda ev: next(e for e in ev if e["ev"] == "PSeg").update(plen=0))
+    return variants, want
+
+
+def canary(cases, table_file, hists=None, tables=None):
     """A known-good trace (built from a case and the placement the spec itself emitted - independent of SPSDK) must be accepted,
-    and rejected after corrupting one logged number / fact."""
+    and rejected after corrupting one logged number / fact.  The same for histories: spec-generated history traces are accepted,
+    the traces of an object that ignores / half-applies the last change are rejected."""
     case = next((c for c in cases if not c["refused"] and c["eff"] > 0 and sum(1 for p in c["place"] if p[0] >= 0) >= 2
                  and any(p[0] > 0 for p in c["place"]) and c["total"] > sum(p[1] for p in c["place"])), None)
     if case is None:
@@ -586,11 +875,18 @@ def canary(cases, table_file):
     variant("canary-eff", lambda ev: ev[0].update(eff=ev[0]["eff"] + 1024))
     variant("canary-refused", lambda ev: (ev[0].update(refused=True), ev.__delitem__(slice(1, None))))
     variant("canary-missing-segment", lambda ev: ev.remove(first(ev, "Seg")))
-    rej, _ = tlc.tv("C14", "BimgTrace", variants, env={"TABLE_FILE": table_file})
     want = {x["id"] for x in variants} - {"canary-good"}
+    n_good = 1
+    if hists:
+        hv, hwant = hist_canaries(hists, tables)
+        variants += hv
+        want |= hwant
+        n_good += len(hv) - len(hwant)
+    rej, _ = tlc.tv("C14", "BimgTrace", variants, env={"TABLE_FILE": table_file})
     if set(rej) != want:
         raise Machinery(f"canary failed: rejected {sorted(rej)}, expected exactly {sorted(want)}")
-    return f"1 spec-generated trace accepted; {len(want)} single-field corruptions of it rejected ({', '.join(sorted(x[7:] for x in want))})"
+    return (f"{n_good} spec-generated traces accepted; {len(want)} corruptions of them rejected "
+            f"({', '.join(sorted(x.split('canary-', 1)[1] for x in want))})")
 
 
 def plan(tier, cases, tables, triples, r):
@@ -637,6 +933,73 @@ def plan(tier, cases, tables, triples, r):
     return jobs
 
 
+HIST_STEPS = ("SetInit", "SetSeg", "ClearSeg", "Export", "Parse", "Reparse")
+
+
+def gen_histories(v, tier, tables, table_file):
+    """TLC generates the histories of one live object (BimgHistGen): exhaustive lanes + a simulated lane; the lemmas of Bimg / BimgHist
+    are checked on every state of every history."""
+    quick = tier == "quick"
+    inv = ("HTypeOK", "CaseOK", "NoOverlap", "StartsWhereTold", "DynamicFollows", "InitSnap", "FirstAtZero", "CursorMonotone", "TotalIsEnd")
+    runs = [  # (lanes: changes per history, snapping starts in the menu, simulate, created with: every start / as a full image only)
+        ({"all": 2, "parsed": 2}, False, None, "all"),
+        ({"sim": 6}, True, "num=66", "all") if quick else ({"sim": 10}, True, "num=600", "all"),
+    ]
+    if not quick:
+        runs.insert(1, ({"all": 3, "parsed": 3}, False, None, "zero"))   # three changes: from the full image (the first change moves the start anywhere)
+        runs.insert(2, ({"init": 2}, True, None, "all"))                 # every pair of init offset changes incl. the snapping starts (one below a segment)
+    hists = []
+    for lanes, snap, sim, r0 in runs:
+        env = {"TABLE_FILE": table_file, "H_SNAP": "1" if snap else "0", "H_R0": r0}
+        env.update({f"H_D_{x.upper()}": lanes.get(x, 0) for x in ("init", "all", "parsed", "sim")})
+        if sim:
+            res = tlc.run("C14", "BimgHistGen", "BimgHistGen.cfg", env=env, workers=1, deadlock=False, heap="6g", timeout=900, simulate=sim, depth=40 * max(lanes.values()))
+            if res.violated or "Error:" in res.out:
+                raise Machinery(f"simulation of BimgHistGen did not pass: {res.violated}\n" + "\n".join(res.out.splitlines()[-40:]))
+        else:
+            res = tlc.mc("C14", "BimgHistGen", "BimgHistGen.cfg", env=env, workers=8, deadlock=False, heap="6g", timeout=1500, coverage=False)
+            v.add_mc(res)
+        got = res.json_prints()
+        if not got:
+            raise Machinery(f"BimgHistGen emitted no history for lanes {lanes}")
+        hists += got
+    # deterministic order (TLC's workers print in any order), duplicates of the simulated lane dropped
+    uniq = {}
+    for h in hists:
+        uniq.setdefault(json.dumps(h, sort_keys=True), h)
+    hists = [uniq[k] for k in sorted(uniq)]
+    fires = dict.fromkeys(HIST_STEPS, 0)
+    for h in hists:
+        for s in h["hist"]:
+            if s["a"] in fires:
+                fires[s["a"]] += 1
+    if min(fires.values()) == 0 or len({h["tb"] for h in hists}) != len(tables):
+        raise Machinery(f"history generation is vacuous: steps {fires}, {len({h['tb'] for h in hists})} of {len(tables)} tables")
+    v.extra["history_lanes"] = {x: sum(1 for h in hists if h["lane"] == x) for x in sorted({h["lane"] for h in hists})}
+    v.extra["history_steps"] = fires
+    v.extra["history_invariants"] = list(inv)
+    return hists
+
+
+def plan_hist(hists, tables, triples, r):
+    """Every generated history is executed; the triples of its table take turns (every triple gets at least one history)."""
+    by_tb = {}
+    for tr in triples:
+        by_tb.setdefault(tr[3], []).append(tr)
+    hs_tb = {}
+    for h in hists:
+        hs_tb.setdefault(h["tb"] - 1, []).append(h)
+    jobs = []
+    for tb, trs in sorted(by_tb.items()):
+        hs = list(hs_tb[tb])
+        trs = list(trs)
+        r.shuffle(hs)
+        r.shuffle(trs)
+        for n in range(max(len(hs), len(trs))):
+            jobs.append((hs[n % len(hs)], trs[n % len(trs)]))
+    return jobs
+
+
 def run(tier):
     import_spsdk()
     v = Verdict(PROP, tier)
@@ -655,7 +1018,7 @@ def run(tier):
     mc = tlc.mc("C14", "BimgMC", "BimgMC.cfg", env={"TABLE_FILE": table_file, "GEN_FULL": "0" if quick else "1"}, workers=8, deadlock=False, heap="6g",
                 timeout=900, coverage=not quick, require_actions=() if quick else actions)
     v.add_mc(mc)
-    cases = mc.json_prints()
+    cases = sorted(mc.json_prints(), key=lambda c: json.dumps(c, sort_keys=True))     # TLC's workers print in any order
     if len(cases) < 1000 or len({c["tb"] for c in cases}) != len(tables):
         raise Machinery(f"GEN emitted {len(cases)} cases for {len({c['tb'] for c in cases})} of {len(tables)} tables")
     # non-vacuity without TLC's (expensive) coverage option: every case is a deterministic walk, so the number of times each action
@@ -686,12 +1049,14 @@ def run(tier):
     ex = Exec(tables, mats)
     jobs = [(n, c, tr, MODES[n % len(MODES)]) for n, (c, tr) in enumerate(jobs)]
     traces = pmap(lambda j: ex.run(*j), jobs, chunksize=4)
-    for t in traces:
+    def selfparse(t):      # does the family's own container parser accept the containers that were built for it?
         fam, rev, mt = t["info"]["family"], t["info"]["revision"], t["info"]["mem_type"]
         tab = tables[t["tb"] - 1]
         last = max(i for i, p in enumerate(t["present"]) if p and tab["segs"][i]["name"] in CONTAINERS and tab["segs"][i]["off"] >= 0)
-        menu = mats.get(fam, rev, mt, tab, last)
-        t["info"]["selfparse"] = all(m["selfparse"] for m in menu)
+        return all(m["selfparse"] for m in mats.get(fam, rev, mt, tab, last))
+
+    for t in traces:
+        t["info"]["selfparse"] = selfparse(t)
     v.count(len(traces))
     covered = {(t["info"]["family"], t["info"]["revision"], t["info"]["mem_type"]) for t in traces}
     if len(covered) != len(triples):
@@ -703,14 +1068,38 @@ def run(tier):
         v.sample({k: t[k] for k in ("tb", "present", "plen", "req", "ev", "info")})
     say(f"[C14] {len(traces)} cases executed on {len(covered)} triples ({v.timer.s()}s)")
 
-    v.extra["canary"] = canary(cases, table_file)
-    validate(v, tables, table_file, traces)
+    # ---- histories of ONE live object: generated by TLC, executed on the real object, every step decided by TLC
+    hists = gen_histories(v, tier, tables, table_file)
+    say(f"[C14] history GEN: {len(hists)} histories {v.extra['history_lanes']}, steps {v.extra['history_steps']}, lemmas hold ({v.timer.s()}s)")
+    hjobs = [(f"h{n}", h, tr) for n, (h, tr) in enumerate(plan_hist(hists, tables, triples, rng(PROP, "hist-plan")))]
+    htraces = pmap(lambda j: ex.run_hist(*j), hjobs, chunksize=4)
+    for t in htraces:
+        t["info"]["selfparse"] = selfparse(t)
+    v.count(len(htraces))
+    hcovered = {(t["info"]["family"], t["info"]["revision"], t["info"]["mem_type"]) for t in htraces}
+    if len(hcovered) != len(triples):
+        raise Machinery(f"only {len(hcovered)} of {len(triples)} triples were exercised by a history")
+    changed = 0
+    for t in htraces:
+        n = sum(1 for e in t["ev"] if e["ev"] in ("SetInit", "SetSeg", "ClearSeg", "Reparse"))
+        if n and any(e["ev"] == "Export" for e in t["ev"]):
+            changed += 1
+            v.nontrivial(json.dumps([t["info"]["family"], t["info"]["revision"], t["info"]["mem_type"], t["info"]["case"], t["info"]["hist"]]))
+    if changed < len(htraces) // 2:
+        raise Machinery(f"only {changed} of {len(htraces)} histories changed the live object and exported it again")
+    v.sample({k: htraces[len(htraces) // 3][k] for k in ("tb", "present", "plen", "req", "ev", "info")})
+    v.extra["histories_executed"] = len(htraces)
+    say(f"[C14] {len(htraces)} histories executed on {len(hcovered)} triples ({v.timer.s()}s)")
+
+    v.extra["canary"] = canary(cases, table_file, hists, tables)
+    validate(v, tables, table_file, traces + htraces)
     parsed = sum(1 for t in traces if t["ev"][-1]["ev"] == "Done")
     v.extra["parsed_back_completely"] = parsed
     v.extra["tables"] = [t["sig"] for t in tables]
     v.extra["material_notes"] = mats.notes
     v.cov["exhaustive"] = tier == "thorough"
-    v.cov["checker_cmd"] = "TLC BimgMC (lemmas over all cases of all tables, case emission) ; TLC BimgTrace (decides every executed case)"
+    v.cov["checker_cmd"] = ("TLC BimgMC (lemmas over all cases of all tables, case emission) ; TLC BimgHistGen (lemmas over all states of all histories, "
+                            "history emission; -simulate for the long lane) ; TLC BimgTrace (decides every executed case and history)")
     v.cov["rule"] = (
         f"cases = initial states of BimgMC: for each of the {len(tables)} distinct segment tables of the device database, every subset of optional "
         "segments x payload length menu (1, size-1, size, up to the next offset; three real container sizes; shortest / middle / longest XMCD block) x requested start "
@@ -718,22 +1107,38 @@ def run(tier):
         "triple gets at least three cases); quick uses the menu without "
         "'size-1' / most 'one below' starts and executes every case with start 0 plus one length assignment per (start, subset), at least one case "
         "per (family, revision, memory type); a case is non-trivial if the real image was built and "
-        "read (or the build was refused); distinct by (triple, case, API path)")
+        "read (or the build was refused); distinct by (triple, case, API path). "
+        "histories = behaviours of BimgHistGen on ONE live object created with every optional segment, from every requested start (0 and every static segment start): "
+        + ("every sequence of 2 changes (init offset to every other start / payload of a segment supplied, replaced by the other length of the history menu, cleared) "
+           "with an export after each, the same after the object was replaced by the parse of its own export, every sequence of 3 such changes on an object created as a "
+           "full image, every sequence of 2 init offset changes incl. the "
+           "snapping ones (one below a segment start), 600 simulated histories of 10 changes with exports / parses anywhere"
+           if tier == "thorough" else
+           "every sequence of 2 changes (init offset to every other start / payload of a segment supplied, replaced by the other length of the history menu, cleared) "
+           "with an export after each, the same after the object was replaced by the parse of its own export, 66 simulated histories of 6 changes (snapping starts, "
+           "exports / parses anywhere)")
+        + "; every generated history is executed, triples of a table in rotation (every triple at least one history); after every export TLC walks the image "
+        "of the CURRENT case; a history is non-trivial if the live object was changed at least once and exported again, distinct by (triple, initial case, history)")
     v.assumptions += [
         "application containers are mandatory, the secondary container set and all header blocks except the image version are optional",
-        "payloads differ from the fill pattern in their first and last byte (an all-pattern block is indistinguishable from an absent one)",
+        "payloads differ from the fill pattern in their first and last byte (an all-pattern block is indistinguishable from an absent one; the image version word "
+        "that the parser returns for an image without one - 4 fill bytes - is read as gap)",
         "an opaque fixed-size block (key blob, key store, BEE header) longer than its nominal size is placed and checked for overlap, but its parse result is not asserted",
         "requested starts inside the dynamic part of a table (behind the last static offset) and negative starts are outside the asserted domain",
         "segment sizes and the alignment of dynamic segments (1024) are read from the segment classes at run time; offsets and the fill pattern from the device database",
         "the init_offset spelled as a segment NAME in a configuration file is refused by the schema (format: number) although load_from_config handles it: observation, not asserted",
         "containers are unsigned / CRC images built through the public MBI, HAB and AHAB builders; SB2.1 / SB3.1 files are golden binaries (anchors/C14)",
+        "histories: a live object is changed only through the public API (init_offset setter, set_init_offset, load_config / clear of segment objects taken from the "
+        "public `segments` list, parse of its own export); a refused init offset, clearing the application container or the image version and a floating segment "
+        "without its predecessor are not part of a history (what the object is afterwards is not settled by the property)",
     ]
     return v.finish()
 
 
 def replay(path):
     import_spsdk()
-    w = json.load(open(path))["witness"]
+    body = json.load(open(path))
+    w = body["witness"]
     t0 = w["trace"]
     info = t0["info"]
     tables, triples = inventory()
@@ -747,9 +1152,13 @@ def replay(path):
         first.setdefault(tr[3], tr)
     mats = Materials()
     mats.prepare(tables, list(first.values()) + [triple])
-    table_menus(tables, triples, mats)
+    table_menus(tables, triples, mats, small=(body.get("tier") == "quick"))
     table_file = os.path.join(scratch(), "c14-tables.json")
     json.dump(tables, open(table_file, "w"))
+    if info.get("mode") == "history":       # the history as TLC emitted it, on the same triple
+        t = Exec(tables, mats).run_hist(t0["id"], dict(info["case"], hist=info["hist"], lane=info.get("lane", "")), triple)
+        t["info"]["selfparse"] = info.get("selfparse", True)
+        return replay_verdict(path, t, tables, table_file)
     # the case as TLC emitted it: lengths of the table's menu (the executor maps them to this family's payloads)
     old = w["table"]["segs"]
     plen = []
@@ -761,7 +1170,11 @@ def replay(path):
     t = Exec(tables, mats).run(t0["id"], case, triple, info["mode"])
     menu = mats.get(triple[0], triple[1], triple[2], tables[tb], max(i for i, p in enumerate(case["present"]) if p and tables[tb]["segs"][i]["off"] >= 0))
     t["info"]["selfparse"] = all(m.get("selfparse", True) for m in menu) if menu else True
-    say(json.dumps({k: t[k] for k in ("present", "plen", "req", "ev")})[:2000])
+    return replay_verdict(path, t, tables, table_file)
+
+
+def replay_verdict(path, t, tables, table_file):
+    say(json.dumps({k: t[k] for k in ("present", "plen", "req", "ev")})[:3000])
     rej, _ = tlc.tv("C14", "BimgTrace", [strip(t)], env={"TABLE_FILE": table_file})
     if rej:
         m = list(rej.values())[0][0]
